@@ -334,6 +334,7 @@ Proof.
   - destruct (prop_wf p); [apply hrs_eq_le, recv_proposal_eq|apply hrs_refl].
   - apply add_block_mono.
   - brk; try apply hrs_refl; apply hrs_eq_le, panic_eq.
+  - unfold add_bad_block. brk; try apply hrs_refl; apply hrs_eq_le; repeat split.
   - destruct (bid_wf _); [apply add_vote_mono|apply hrs_refl].
   - destruct (existsb _ _); [|apply hrs_refl].
     eapply hrs_le_eq_l; [|apply handle_timeout_mono]. repeat split.
